@@ -53,6 +53,8 @@ class State:
         self.counter = 0
         self.solver = z3.Solver()
         self.solver.set('timeout', FEAS_TIMEOUT_MS)
+        self.model = None
+        self.model_valid = False
         self.pending = list(base)
         self.todo = None
         self.stats = stats
@@ -71,24 +73,65 @@ class State:
     def add(self, c):
         self.pc.append(c)
         self.pending.append(c)
+        if self.model_valid and self.model_says(c) is not True:
+            self.model_valid = False
 
     def define(self, *cs):
         for c in cs:
             self.defs.append(c)
             self.pending.append(c)
+        self.model_valid = False     # fresh variables are not in the cached model
 
-    def check(self, c):
-        self._flush()
+    def check(self, c, want_model=False):
+        """feasibility of (pc and defs and c) with a fresh (non-incremental) solver: z3 then uses its nlsat-based
+        strategy for nonlinear real arithmetic, which the incremental core does not"""
         t0 = time.time()
+        # 1. incremental solver with a short budget (cheap for the many linear queries)
+        self._flush()
+        self.solver.set('timeout', 150)
         self.solver.push()
         self.solver.add(c)
         r = str(self.solver.check())
+        s = self.solver
+        if r == 'sat':
+            try:
+                self.model = s.model()
+            except z3.Z3Exception:
+                self.model = None
         self.solver.pop()
+        if r == 'unknown':
+            # 2. fresh solver: nlsat-based strategy
+            s = z3.Solver()
+            s.set('timeout', FEAS_TIMEOUT_MS)
+            s.add(*self.pc)
+            s.add(*self.defs)
+            s.add(c)
+            r = str(s.check())
+            if r == 'sat':
+                try:
+                    self.model = s.model()
+                except z3.Z3Exception:
+                    self.model = None
         self.stats['feas_queries'] += 1
         self.stats['solver_s'] += time.time() - t0
         if r == 'unknown':
             self.stats['feas_unknown'] += 1
         return r
+
+    def model_says(self, c):
+        """truth value of c in the cached model of the current path condition (None if unavailable)"""
+        m = getattr(self, 'model', None)
+        if m is None:
+            return None
+        try:
+            v = m.eval(c, model_completion=True)
+        except z3.Z3Exception:
+            return None
+        if z3.is_true(v):
+            return True
+        if z3.is_false(v):
+            return False
+        return None
 
     def fresh(self, name, sort='real'):
         self.counter += 1
@@ -110,8 +153,21 @@ class State:
                 raise Budget('wall budget')
             if i > self.max_decisions:
                 raise Budget('too many decisions on one path')
-            rt = self.check(c)
-            rf = self.check(z3.Not(c))
+            cached = self.model if self.model_valid else None
+            known = self.model_says(c) if cached is not None else None
+            if known is True:
+                rt, mt = 'sat', cached
+                rf = self.check(z3.Not(c))
+                mf = self.model if rf == 'sat' else None
+            elif known is False:
+                rf, mf = 'sat', cached
+                rt = self.check(c)
+                mt = self.model if rt == 'sat' else None
+            else:
+                rt = self.check(c)
+                mt = self.model if rt == 'sat' else None
+                rf = self.check(z3.Not(c))
+                mf = self.model if rf == 'sat' else None
             t_ok = rt != 'unsat'
             f_ok = rf != 'unsat'
             if t_ok and f_ok:
@@ -123,8 +179,13 @@ class State:
                 d = False
             else:
                 raise Abort('infeasible path')
+            self.model = mt if d else mf
+            self.model_valid = self.model is not None
         self.trace.append(d)
+        keep = (self.model, self.model_valid)
         self.add(c if d else z3.Not(c))
+        if i >= len(self.prefix):
+            self.model, self.model_valid = keep
         return d
 
     # -- exp / log pairs --------------------------------------------------
@@ -169,8 +230,46 @@ def cur():
 # --------------------------------------------------------------------------
 # conversions
 
+def _simplest_between(lo, hi):
+    """simplest fraction (smallest denominator) in the closed interval [lo, hi], 0 < lo <= hi (Stern-Brocot)"""
+    F = fractions.Fraction
+    if lo.denominator == 1:
+        return lo
+    fl = lo.numerator // lo.denominator
+    if F(fl + 1) <= hi:
+        return F(fl + 1)
+    if fl + 1 > hi and F(fl) == lo:
+        return lo
+    # same integer part: recurse on the reciprocal of the fractional parts
+    rlo, rhi = lo - fl, hi - fl
+    if rlo == 0:
+        return F(fl)
+    inner = _simplest_between(1 / rhi, 1 / rlo)
+    return fl + 1 / inner
+
+
+_FLOAT_CACHE = {}
+
+
 def _frac_of_float(x):
-    return fractions.Fraction(repr(float(x)))
+    """floats are read as the simplest rational within 2 ulp when its denominator is <= 10**6 (1e6/101325 ->
+    40000/4053, 1000/133.322 -> 500000/66661, 0.1 -> 1/10), else at their shortest decimal representation; unit factors computed in floats before
+    a symbolic value is touched thus stay exact rationals"""
+    x = float(x)
+    if x in _FLOAT_CACHE:
+        return _FLOAT_CACHE[x]
+    F = fractions.Fraction
+    dec = F(repr(x))
+    r = dec
+    if x != 0 and math.isfinite(x):
+        ax = abs(x)
+        exact = F(ax)
+        ulp = F(math.ulp(ax))
+        cand = _simplest_between(exact - 2 * ulp, exact + 2 * ulp)
+        if cand.denominator <= 10 ** 6 and cand.denominator <= dec.denominator:
+            r = cand if x > 0 else -cand
+    _FLOAT_CACHE[x] = r
+    return r
 
 
 def realval(x):
@@ -857,11 +956,10 @@ class SymInt:
         if z3.is_int_value(v):
             return v.as_long()
         for _ in range(64):
-            st._flush()
-            r = st.solver.check()
-            if str(r) != 'sat':
+            r = st.check(z3.BoolVal(True))
+            if r != 'sat':
                 raise Budget('cannot enumerate symbolic int')
-            val = st.solver.model().eval(s.t, model_completion=True).as_long()
+            val = st.model.eval(s.t, model_completion=True).as_long()
             if st.branch(s.t == val):
                 return val
         raise Budget('symbolic int has too many values')
